@@ -8,12 +8,14 @@
     new <buckets>               `search.New(32*buckets)`                                          → ok
     clear                       `(*Search).Clear()`                                               → ok
     digest                      → the digest of the persistent state (see below)
-    go <fen: 6 fields> | moves <m1 m2 …: 16-bit move words, decimal> | depth D nodes N softnodes M stop K|- out 0|1
+    go <fen: 6 fields> | moves <m1 m2 …: 16-bit move words, decimal> | depth D nodes N softnodes M stop K|- out 0|1 ponder P|-
                                 `board.FromFEN(fen)`, `MakeMove` for every move (so the hash history of the
                                 game is there), then `Go(b, WithDepth(D), WithNodes(N), WithSoftNodes(M),
                                 WithStop(ch)?, WithOutput(w|nil), WithCounters(&c))`.
                                 N = -1: no hard budget.  `stop K`: the stop signal is visible to the K-th
                                 poll of the channel (K = 0: closed before the start); `stop -`: no channel.
+                                `ponder P`: `WithPonderHit(ch)`, the message is received by the P-th non-blocking
+                                poll of ch (one poll after every completed iteration); `ponder -`: no channel.
         → `<score> <move> <ponder> <Counters.Nodes> <Counters.ABNodes> <fuelOut> <anomaly> | <info>;<info>;… | <digest>`
           info = `<depth>:<1 = completed iteration, 0 = abort notice>:<score>:<nodes>:<hashfull>:<pv moves, comma separated>`
           (`-` when there is no line), `<fuelOut>`/`<anomaly>` the ghost flags of the skeleton (0/1).
@@ -103,17 +105,19 @@ def parseGo (ws : List String) : Option GoArgs :=
   match (String.intercalate " " ws).splitOn " | " with
   | [fen, mv, lim] =>
     match mv.splitOn " ", lim.splitOn " " with
-    | "moves" :: ms, ["depth", d, "nodes", n, "softnodes", sn, "stop", st, "out", o] =>
+    | "moves" :: ms, ["depth", d, "nodes", n, "softnodes", sn, "stop", st, "out", o, "ponder", pd] =>
       match parseInt d, parseInt n, parseInt sn with
       | some d, some n, some sn =>
         let stop : Option (Option Nat) := if st == "-" then some none else st.toNat?.map some
-        match stop with
-        | none => none
-        | some stop =>
+        let ponder : Option (Option Nat) := if pd == "-" then some none else pd.toNat?.map some
+        match stop, ponder with
+        | none, _ => none
+        | _, none => none
+        | some stop, some ponder =>
           let ms := (ms.filter (· ≠ "")).map String.toNat?
           if ms.any Option.isNone then none else
           some { fen := fen, moves := ms.map (·.getD 0),
-                 L := { depth := d, nodes := n, softNodes := sn, softTime := 0, stop := stop, ponder := none, output := o == "1" } }
+                 L := { depth := d, nodes := n, softNodes := sn, softTime := 0, stop := stop, ponder := ponder, output := o == "1" } }
       | _, _, _ => none
     | _, _ => none
   | _ => none
